@@ -1,6 +1,7 @@
 package sym
 
 import (
+	"os"
 	"fmt"
 	"go/types"
 	"path/filepath"
@@ -780,6 +781,12 @@ func (c *Call) outcomesNoRet(sol *Solver, outs []Outcome) []*State {
 		}
 	}
 	if len(feas) == 0 {
+		if os.Getenv("GOSYM_DEBUG") != "" {
+			fmt.Fprintf(os.Stderr, "no feasible outcome in %s at %s (%d outcomes)\n", c.Name, c.E.curPos(c.St), len(outs))
+			for _, o := range outs {
+				fmt.Fprintf(os.Stderr, "   cond: %s\n", o.Cond.SMT())
+			}
+		}
 		c.E.endPath(c.St, "infeasible")
 		return []*State{}
 	}
